@@ -35,7 +35,14 @@ func (d *Driver) EstablishPeriodicSubscription(
 
 	m := d.buildPayload(establishElem)
 
-	r, err := d.sendRPC(m, &OperationOptions{})
+	// like every other rpc: default operation options, a zero value OperationOptions would mean
+	// "no timeout at all" instead of "the connection wide timeout"
+	op, err := NewOperation()
+	if err != nil {
+		return nil, err
+	}
+
+	r, err := d.sendRPC(m, op)
 	if err != nil {
 		return nil, err
 	}
